@@ -1,4 +1,5 @@
 import TypVerif.Gen.MapHooks
+import TypVerif.Gen.LockDiscipline
 import TypVerif.Model.SyncMapConc
 /-
 C04 / C05, tie 4B: the atomic sites of `sync2/map.go` and their hooks are REGENERATED from the source on every run
@@ -69,5 +70,15 @@ def hookPcs : List (Pc Unit Unit) :=
 
 theorem model_labels_are_sites : ∀ pc ∈ hookPcs, pc.label ∈ modelSites.map Prod.snd := by
   simp [hookPcs, modelSites, Pc.label]
+
+/-- **static lock / atomic discipline of map.go** (regenerated from the source on every run; the static half of "concurrent use is
+free of data races" — the dynamic half is the race detector): every access to `m.dirty` / `m.misses` lies in a region where `m.mu`
+is held (or in a `…Locked` function, which is only called from such regions), `entry.p` is only ever used as `&e.p` in a
+`sync/atomic` call, `m.read` only through the methods of `atomic.Value` — and the check is not vacuous (21 guarded and 28 atomic
+accesses at the time of writing).  With the mutual exclusion of `mu` (`C04.conc_lock_exclusive`) no two goroutines can access a
+plain field concurrently. -/
+theorem gen_race_discipline :
+    Gen.LockDiscipline.mapViolations = [] ∧ 0 < Gen.LockDiscipline.mapGuardedAccesses ∧ 0 < Gen.LockDiscipline.mapAtomicAccesses :=
+  ⟨rfl, by decide, by decide⟩
 
 end C04
